@@ -10,7 +10,7 @@ package archiver
 //@ func copyWithTimeout
 //@   property C10,C02
 //@   opaque
-//@   sweep idx slice div assert
+//@   sweep idx slice div assert extnil
 //@   attr proved to-eof
 //@   modifies *
 //@   loop for invariant [eof-count] @C02 io.nEOF() >= old(io.nEOF())
@@ -18,4 +18,4 @@ package archiver
 //@ func copyWithTimeoutN
 //@   property C10
 //@   opaque
-//@   sweep idx slice div assert
+//@   sweep idx slice div assert extnil
